@@ -40,9 +40,19 @@ theorem shift_of (n : BitVec 64) : ((n &&& 1#64) * 4#64).toNat = if hiOf n then 
   unfold hiOf
   rcases and_one_cases n with h | h <;> simp [h]
 
+/-- spellings of the same index / shift arithmetic (`n >> 1` for `n / 2`, `x << 2` for `x * 4`):
+the bridge lemmas below normalise either spelling of the source before they look at it -/
+theorem shl2_eq_mul4 (x : BitVec 64) : x <<< (2 : Nat) = x * 4#64 := by
+  apply BitVec.eq_of_toNat_eq
+  simp [BitVec.toNat_shiftLeft, BitVec.toNat_mul, Nat.shiftLeft_eq]
+theorem shr1_eq_div2 (x : BitVec 64) : x >>> (1 : Nat) = x / 2#64 := by
+  apply BitVec.eq_of_toNat_eq
+  simp [BitVec.toNat_ushiftRight, BitVec.toNat_udiv, Nat.shiftRight_eq_div_pow]
+
 theorem rowGet_eq (r : Row) (n : BitVec 64) :
     rowGet r n = nib r[byteOf n]! (hiOf n) := by
   unfold rowGet nib byteOf
+  try simp only [shl2_eq_mul4, shr1_eq_div2]
   rw [shift_of]
 
 theorem rowIncrement_eq (r : Row) (n : BitVec 64) :
@@ -51,6 +61,7 @@ theorem rowIncrement_eq (r : Row) (n : BitVec 64) :
       then r.set! (byteOf n) (r[byteOf n]! + (1#8 <<< (if hiOf n then 4 else 0)))
       else r := by
   unfold rowIncrement nib byteOf
+  try simp only [shl2_eq_mul4, shr1_eq_div2]
   simp only [shift_of]
 
 /-- two counter indices address the same nibble iff they are equal -/
